@@ -12,7 +12,7 @@ from mc import schedx
 
 ID = 'C10'
 LEVEL = 'model_checking'
-CASE_TIMEOUT = 240
+CASE_TIMEOUT = 90
 BATCH = 24
 RULE = ('schedules = IMU pattern {uniform,gap,irregular,decimal} x N x start x every subset '
         'of <= M measurement samples from (4N+3 slots x 3 sensors) + the cluster family '
